@@ -1,1 +1,4 @@
 import ADPropsM.C10
+import ADPropsM.C11
+import ADPropsM.C12
+import ADPropsM.C13
